@@ -462,7 +462,8 @@ func (x *Exec) simple(st *State, fr *Frame, in ssa.Instruction) {
 			fr.vals[in] = Val{K: KPtr, Typ: in.Type(), Ptr: &Pointer{Heap: key, Rows: true, Elem: a.Elem(), Root: root, Idx: "0", ArrLen: a.Len(), IsArr: true, Fresh: true}}
 			return
 		}
-		if !in.Heap || x.cellable(in) {
+		_, isFuncT := elem.Underlying().(*types.Signature)
+		if !in.Heap || isFuncT || x.cellable(in) {
 			x.cellN++
 			c := &Cell{id: x.cellN, typ: elem}
 			fr.cells[in] = c
@@ -499,6 +500,12 @@ func (x *Exec) simple(st *State, fr *Frame, in ssa.Instruction) {
 				bail("load through non-pointer %v", in.X.Type())
 			}
 			x.nilCheck(st, fr, a, in.Pos())
+			if a.Ptr.Heap == "" && a.Ptr.Local == nil && a.Ptr.ExtField {
+				// read of a field of an external object: unknown value
+				x.note("reads of fields of external objects yield unconstrained values")
+				fr.vals[in] = x.freshVal(st, "ext", in.Type())
+				return
+			}
 			if g, ok := in.X.(*ssa.Global); ok && isErrorType(in.Type()) && x.P.globalConst(g) {
 				// package-level error variable that is never reassigned: a sentinel value
 				fr.vals[in] = Val{K: KErr, Typ: in.Type(), T: x.sentinel(g.Pkg.Pkg.Path() + "." + g.Name())}
@@ -572,7 +579,10 @@ func (x *Exec) simple(st *State, fr *Frame, in ssa.Instruction) {
 		}
 		x.nilCheck(st, fr, a, in.Pos())
 		if a.Ptr.Heap == "" && a.Ptr.Local == nil {
-			bail("field access into opaque type %v", a.Ptr.Elem)
+			// field of an external (unmodelled) struct: an opaque location whose content is unknown
+			ft := a.Ptr.Elem.Underlying().(*types.Struct).Field(in.Field).Type()
+			fr.vals[in] = Val{K: KPtr, Typ: in.Type(), Ptr: &Pointer{Heap: "", Elem: ft, Root: a.Ptr.Root, Fresh: a.Ptr.Fresh, ExtField: true}}
+			return
 		}
 		np := *a.Ptr
 		np.Path = append(append([]int(nil), a.Ptr.Path...), in.Field)
@@ -645,6 +655,13 @@ func (x *Exec) simple(st *State, fr *Frame, in ssa.Instruction) {
 			bail("store through non-pointer")
 		}
 		x.nilCheck(st, fr, a, in.Pos())
+		if a.Ptr.Heap == "" && a.Ptr.Local == nil && a.Ptr.ExtField {
+			if !a.Ptr.Fresh {
+				bail("store into a field of a pre-existing external object")
+			}
+			x.note("stores into fields of freshly created external objects are not modelled")
+			return
+		}
 		x.frameCheck(st, fr, a.Ptr, in.Pos())
 		if a.Ptr.Local != nil && len(a.Ptr.Path) == 0 {
 			st.cells[a.Ptr.Local] = v
